@@ -3,7 +3,9 @@ pub mod c01;
 pub mod c02;
 pub mod c07;
 pub mod c08;
+pub mod c13;
 pub mod c17;
+pub mod hist;
 pub mod c18;
 pub mod c19;
 pub mod c20;
@@ -12,6 +14,14 @@ pub fn run(id: &str, tier: Tier) -> i32 {
     match id {
         "C01" => c01::run(tier),
         "C02" => c02::run(tier),
+        "C03" => hist::run("C03", tier),
+        "C04" => hist::run("C04", tier),
+        "C05" => hist::run("C05", tier),
+        "C06" => hist::run("C06", tier),
+        "C10" => hist::run("C10", tier),
+        "C11" => hist::run("C11", tier),
+        "C12" => hist::run("C12", tier),
+        "C13" => hist::run("C13", tier),
         "C07" => c07::run(tier),
         "C08" => c08::run(tier),
         "C17" => c17::run(tier),
